@@ -89,6 +89,7 @@ package bytes
 //@   nopanic
 //@   ensures result1 == nil ==> len(b) > 0 && (forall k :: 0 <= k && k < len(b) ==> isDigit(b[k]))
 //@   ensures (len(b) == 0 || (exists k :: 0 <= k && k < len(b) && !isDigit(b[k]))) ==> result1 != nil
+//@   ensures (len(b) > 0 && (forall k :: 0 <= k && k < len(b) ==> isDigit(b[k]))) ==> result1 == nil
 //@   loop 0 invariant rangeindex < len(b) && (forall k :: 0 <= k && k <= rangeindex ==> isDigit(b[k]))
 //@   loop 0 decreases len(b) - rangeindex
 
